@@ -29,3 +29,16 @@ check("C02",
       "only inside sessions; trusted: TLC, the harness's struct parser of the UKV format",
       "TLA+ spec (KVMap/UKVFile/Backend) model-checked with TLC; spec->code replay of every transition",
       "DESIGN.md 4/C02")
+
+check("C03",
+      "TLC exhausts UKVCrash (every crash offset of append sessions over records with lengths 0..3, recovery by r / a+put / "
+      "second crash) for CommittedSurvive, ViewIsComplete, NoPartialKey, NoGapOnAppend; then real append sessions "
+      "(key lengths 1..255, values 0..70 kB) are recorded by a stream wrapper, EVERY byte offset (small sessions) or "
+      "every offset within 6 bytes of a structural boundary (large ones) is materialised as a crash image, four real "
+      "recovery histories (UKVFile r, a+new key, a+torn key, Collection reading; plus a second crash at every byte of the "
+      "recovery put) are executed on it and each event trace is validated by TLC against UKVCrash.",
+      "assumes a crash leaves a prefix of the session's logical byte stream and an intact file header; trusted: TLC, "
+      "the stream wrapper, the harness's struct parser (only used for the header length)",
+      "TLA+ spec (UKVCrash) model-checked with TLC; batched TLC trace validation of real recovery executions on "
+      "enumerated crash images (fault enumeration)",
+      "DESIGN.md 4/C03")
